@@ -27,7 +27,7 @@ Theorem C12_header : forall cfg c p name ln bases kws body decs es,
     get_assign (c_nsp c) name
       (Call (match rev (filter is_meta_kw kws') with kw :: _ => snd kw | [] => Name "type" end)
             [cstr name; ETuple bases'; EDict [] []] (filter (fun kw => negb (is_meta_kw kw)) kws')) = inl create /\
-    get_load_name (c_nsp c) [] name = inl load /\
+    get_load_name (c_nsp c) [] false name = inl load /\
     es = create :: rest.
 Proof. exact classdef_shape. Qed.
 Print Assumptions C12_header.
